@@ -45,6 +45,11 @@ class C04(Prop):
                     plan = [{'fails': f, 'v': 10 * (i + 1), 'pos': ['before', 'mid', 'after'][(i + f) % 3],
                              'exc': ['ValueError', 'KeyError', 'Custom'][(i + 2 * f) % 3]} for i, f in enumerate(fails)]
                     out.append({'max': mx, 'executor': 'default', 'jobs': [{'plan': plan, 'action': 'collect'}]})
+        for pos in ('before', 'mid', 'after'):
+            for f in (1, 2):
+                out.append({'max': 2, 'executor': 'default', 'jobs': [{'plan': [
+                    {'fails': 0, 'v': 5, 'pos': 'mid', 'exc': 'ValueError'}, {'fails': f, 'v': 9, 'pos': pos, 'exc': 'KeyError'}],
+                    'action': 'collect', 'persist': True}]})
         for act in LAZY:
             out.append({'max': 3, 'executor': 'default',
                         'jobs': [{'plan': [{'fails': 0, 'v': 1, 'pos': 'before', 'exc': 'ValueError'},
@@ -70,7 +75,8 @@ class C04(Prop):
                     f = rng.choice([0, 0, 0, 1, 1, 2, mx - 1, mx, mx + 1])
                     plan.append({'fails': max(0, f), 'v': rng.randint(-5, 20), 'pos': 'before' if lazy else rng.choice(['before', 'mid', 'after']),
                                  'exc': rng.choice(list(EXC))})
-            jobs.append({'plan': plan, 'action': rng.choice(LAZY) if lazy else rng.choice(ACTIONS), 'lazy': lazy})
+            jobs.append({'plan': plan, 'action': rng.choice(LAZY) if lazy else rng.choice(ACTIONS), 'lazy': lazy,
+                         'persist': (not lazy) and rng.random() < .3})
         return {'max': mx, 'executor': ex, 'jobs': jobs}
 
     def nontrivial(self, case):
@@ -141,6 +147,8 @@ class C04(Prop):
 
         base = sc.parallelize(list(range(n)), n).flatMap(lambda i: data[i]) if n > 1 else sc.parallelize(data[0], 1)
         rdd = base.mapPartitionsWithIndex(faulty)
+        if job.get('persist'):
+            rdd = rdd.persist()
         act = job['action']
         seen = []
         try:
@@ -168,6 +176,9 @@ class C04(Prop):
             else:
                 raise ValueError(act)
             out = {'done': res}
+            if job.get('persist'):
+                # a later action on the persisted dataset must see every partition's complete data
+                out['again'] = rdd.mapPartitions(lambda it: [sum(it)]).collect()
         except self.Locked:
             out = {'raised': 0}
         except tuple(EXC.values()) as e:
@@ -216,6 +227,10 @@ class C04(Prop):
                        'first': (vs[0] - 1) if vs else None, 'isEmpty': False}[act]
                 if act == 'foreach':        # returns nothing; side effects of failed attempts are not "the result"
                     exp = g.get('done')
+                again = g.pop('again', None)
+                if again is not None and again != vs:
+                    return Mismatch('%s: a second action on the persisted dataset does not see the complete partitions' % tag,
+                                    again, vs, 'C04:persisted-after-retry')
                 if g != {'done': exp}:
                     return Mismatch('%s (%s): result differs from the fault-free result' % (tag, act), g, {'done': exp},
                                     'C04:result' + (':follow-up' if last else ''))
